@@ -66,6 +66,17 @@ impl ProcessorRegistry {
         }
     }
 
+    /// Drops every task that is still queued on any processor.
+    ///
+    /// Called at the end of pool shutdown, once all workers have exited.
+    pub(crate) fn abandon_queued_tasks(&self) {
+        for state in &self.states {
+            if let Some(s) = state.get() {
+                s.abandon_queued_tasks();
+            }
+        }
+    }
+
     #[cfg(test)]
     pub(crate) fn initialized_count(&self) -> usize {
         self.states.iter().filter(|s| s.get().is_some()).count()
